@@ -501,7 +501,7 @@ class Provider(ABC):                    # pylint: disable=too-many-public-method
         norm_paths: List[str] = list(cls.__strip_path_list(cls.__normalize_path_list(paths)))
         if norm_paths:
             joined_path = cls.sep.join(norm_paths)
-            if not cls.win_paths or joined_path[1] != ':':
+            if not cls.win_paths or joined_path[1:2] != ':':
                 if joined_path[0] != cls.sep:
                     joined_path = cls.sep + joined_path
             return joined_path
